@@ -144,6 +144,9 @@ class ExcoreCollection(dict):
         """Needed to support pickling and unpickling the Reactor."""
         memo[id(self)] = newE = self.__class__.__new__(self.__class__)
         newE.__setstate__(copy.deepcopy(self.__getstate__(), memo))
+        # the ex-core structures are held as dictionary items, not in __dict__
+        for key, value in self.items():
+            newE[key] = copy.deepcopy(value, memo)
         return newE
 
     def __repr__(self):
